@@ -15,9 +15,9 @@
    result (value, error, panic site or fuel exhaustion), for every graph state.  Across processes
    and rayon pool sizes the property is checked on the implementation only (the property oracle),
    as is fast_gnp_random_graph (its model belongs to C16). *)
-From Coq Require Import List Bool ZArith QArith Permutation.
+From Coq Require Import String List Bool ZArith QArith Permutation.
 From GV Require Import Base.Outcome Base.AMap Model.GState Model.Query Model.Louvain Model.LouvainOrd
-     Proofs.WFDefs Proofs.LouvainOk Proofs.LouvainOrdOk.
+     Proofs.WFDefs Proofs.LouvainOk Proofs.LouvainGenGraphOk Proofs.LouvainOrdOk.
 Import ListNotations.
 
 (* the community chosen for a node does not depend on the order in which the HashMap of
@@ -138,6 +138,35 @@ Proof.
   intros OS h H1 H2 H3 T A teqb tltb E1 E2 E3.
   exact (louvain_communities_ord_eq h (mkOP OS h H1 H2 H3) teqb tltb E1 E2 E3).
 Qed.
+
+(* ------------------------------------------------------------------------------------------ *)
+(* The content-only iteration sites (the elements only flow into another hash container; the   *)
+(* model keeps its list representation there and applies no oracle): locally, the CONTENT of   *)
+(* the produced container and the outcome class do not depend on the iteration order.  Not     *)
+(* composed into the whole-algorithm theorems (that needs "equal as sets of sets").            *)
+(* ------------------------------------------------------------------------------------------ *)
+
+(* compute_one_level: HashSet::difference / union *)
+Theorem C17_set_ops_content_only : forall a a' b b', same_set a a' -> same_set b b' ->
+  same_set (set_diff a b) (set_diff a' b') /\ same_set (set_union a b) (set_union a' b').
+Proof. exact set_ops_content_only. Qed.
+
+(* convert_usize_partitons_to_t: renaming one community *)
+Theorem C17_convert_back_community_order_free :
+  forall (T : Type) (rev_map : list (nat * T)) (hs hs' : list nat), Permutation hs hs' ->
+    outcome_rel (@Permutation T)
+      (omapM (fun u => unwrap_at "louvain.rs:reverse_node_map unwrap" (lookup Nat.eqb u rev_map)) hs)
+      (omapM (fun u => unwrap_at "louvain.rs:reverse_node_map unwrap" (lookup Nat.eqb u rev_map)) hs').
+Proof. exact (@convert_back_community_order_free). Qed.
+
+(* generate_graph: `for node in part` fills node2com (compared as a lookup function) and the
+   attribute set of the new node (compared by membership); [gg_inner] is the loop body *)
+Theorem C17_generate_graph_part_order_free : forall (g : lgraph), WF Nat.eqb Nat.ltb g ->
+  forall i part part' n2c, Permutation part part' ->
+    outcome_rel (fun r r' : list (nat * nat) * list nat =>
+                   (forall u, lookup Nat.eqb u (fst r) = lookup Nat.eqb u (fst r')) /\ same_set (snd r) (snd r'))
+                (ofold (gg_inner g i) part (n2c, [])) (ofold (gg_inner g i) part' (n2c, [])).
+Proof. exact generate_graph_part_order_free. Qed.
 
 (* non-vacuity: two oracles that satisfy the hypotheses and really permute - "iterate every table
    backwards", and a stateful one, "the k-th iteration of the run starts at offset k" - on the
